@@ -1,5 +1,6 @@
 SPECIFICATION SSpec
 CONSTANT L = 8
+CONSTANT Mode = "main"
 CONSTANT Depth = 12
 CONSTRAINT Emit
 CONSTRAINT Stop
